@@ -150,7 +150,7 @@ def gen_cases(tier: str, seed: int) -> List[Dict]:
     rng = random.Random(1000 + seed)
     cases: List[Dict] = []
     quick = tier == "quick"
-    budget = 6 if quick else 10
+    budget = 8 if quick else 12
     maxexp = 2 if quick else 3
     lim = {"max_paths": 2000 if quick else 20000, "time": 45.0 if quick else 400.0}
 
@@ -166,7 +166,7 @@ def gen_cases(tier: str, seed: int) -> List[Dict]:
         cases.append({"id": "%s-%03d-%s%s" % (PROP, cid, op, tag), "op": op, "operands": operands, "expr": expr, "laws": laws or [], "limits": lim})
 
     # 1. binary operators: poly (x) poly over shape pairs x name pairs
-    reps = 1 if quick else 3
+    reps = 6 if quick else 250
     for _ in range(reps):
         for (s1, s2) in SHAPE_PAIRS_QUICK:
             for op in ("add", "sub", "mul"):
@@ -229,7 +229,7 @@ def gen_cases(tier: str, seed: int) -> List[Dict]:
         a = poly("a", rng.choice([("q0",), ("q0", "q1")]), shape, 1, 4, mode="raw")
         add("pow", [a], ["powarr", 0, karr], tag="-arr%dd" % numpy.array(karr).ndim)
     # 6. compositions (depth <= 3 quick / 4 thorough) + ring laws on the same operands
-    ncomp = 12 if quick else 60
+    ncomp = 40 if quick else 600
     for _ in range(ncomp):
         shapes = rng.choice([((), (), ()), ((2,), (), (2,)), ((2,), (2, 1), ()), ((1, 2), (2,), (2, 2))])
         names = [rng.choice(S.NAME_SETS[:5]) for _ in range(3)]
@@ -244,7 +244,7 @@ def gen_cases(tier: str, seed: int) -> List[Dict]:
         add("expr", ops_, expr, laws=[rng.choice(laws)], tag="-d%d" % depth)
     # 7. thorough: seeded random extra structures incl. 3 indeterminates / up to 6 terms
     if not quick:
-        for _ in range(120):
+        for _ in range(6000):
             s1, s2 = rng.choice(SHAPE_PAIRS_QUICK)
             n1 = rng.choice(S.NAME_SETS)
             n2 = rng.choice(S.NAME_SETS)
